@@ -37,6 +37,16 @@ CLAIMED = {
                      "broadcasting rule) is executed on a symbolic int / symbolic float (nan, inf and every boundary are the solver's "
                      "choice) and compared with the arithmetic predicate written from the documentation, on every path.",
                 design_ref="DESIGN.md 5/C13", technique="symbolic execution (CrossHair+z3) vs arithmetic reference predicates"),
+    'C20': dict(engine='pysym',
+                text="The real bodies of rename_field/_split_field_name/split_case/_pairwise and the five joiner lambdas are interpreted from "
+                     "the AST of /repo/pane/field.py over vectors of symbolic code points (every character AND every separator position is "
+                     "a solver variable); for each feasible path the negated property (canonical spelling, idempotence, back-to-snake and "
+                     "style pairs, refusal of unsplittable names, injectivity on pairs) is asserted and must be unsat. Bounded by name length.",
+                design_ref="DESIGN.md 4 and 5/C20",
+                note="Bounded by name length (quick <= 9, thorough <= 12) and ASCII. Trusted: the position-wise models of the str case methods "
+                     "and re.split (validated against CPython on every run, exit 2 on mismatch), the 15-line canonical-spelling reference, z3 "
+                     "(cvc5 re-decides a sample of the final queries in the thorough tier). Counterexamples are replayed on the real function.",
+                technique="AST-level symbolic interpretation of field.py into QF_LIA, z3 unsat per path; cvc5 cross-check"),
 }
 
 NA = {
